@@ -53,6 +53,8 @@ func (e ev) String() string {
 		return fmt.Sprintf("cancel(w%d)+put+start", e.I)
 	case "startput":
 		return fmt.Sprintf("start(k%d,cur)+put", e.Key)
+	case "tick":
+		return "clock+1h"
 	}
 	return fmt.Sprintf("%s(k%d)", e.K, e.Key)
 }
@@ -69,6 +71,8 @@ var eventAlphabet = []ev{
 	{K: "casok", Key: 1}, {K: "casconf", Key: 1}, {K: "delete", Key: 1}, {K: "create", Key: 1}, {K: "delete", Key: 2},
 	// combined events: no quiescence between the parts (a leaver races a mutation and a newcomer)
 	{K: "cancelput", I: 0}, {K: "cancelput", I: 1}, {K: "startput", Key: 1},
+	// expiry: a write with an expiry 30 virtual minutes ahead, and the clock moving one hour
+	{K: "putexp", Key: 1}, {K: "tick"},
 }
 
 type swaiter struct {
@@ -89,8 +93,9 @@ func runScript(sc script, visit func(string)) *vio {
 	s := inmem.New()
 	bg := context.Background()
 	keys := map[int]string{1: "k1", 2: "k2"}
-	cur := map[string]string{}   // model: current version per present key
-	stale := map[string]string{} // a superseded version per key
+	cur := map[string]string{}      // model: current version per present key
+	stale := map[string]string{}    // a superseded version per key
+	expAt := map[string]time.Time{} // model: keys whose record carries an expiry
 	learn := func(k string) {
 		r, err := s.Get(bg, k)
 		if err == nil {
@@ -237,6 +242,7 @@ func runScript(sc script, visit func(string)) *vio {
 			w := ws[e.I]
 			wasParked := w.expect == "parked"
 			w.cancel()
+			delete(expAt, w.key)
 			r, err := s.Put(bg, kvs.Record{Key: w.key, Value: []byte("q")})
 			if err != nil {
 				cleanup()
@@ -261,6 +267,7 @@ func runScript(sc script, visit func(string)) *vio {
 			nw := &swaiter{key: k, ver: ver, cancel: cancel, res: make(chan error, 1), started: n}
 			n++
 			go func() { nw.res <- s.WaitForVersionChange(ctx, nw.key, nw.ver) }()
+			delete(expAt, k)
 			if _, err := s.Put(bg, kvs.Record{Key: k, Value: []byte("r")}); err != nil {
 				cleanup()
 				return &vio{"inmem/Put/error", err.Error()}
@@ -272,19 +279,49 @@ func runScript(sc script, visit func(string)) *vio {
 				nw.alt = "ErrNotExist" // the key did not exist yet when the waiter looked
 			}
 			ws = append(ws, nw)
+		case "putexp":
+			at := time.Now().Add(30 * time.Minute)
+			if _, err := s.Put(bg, kvs.Record{Key: k, Value: []byte("e"), ExpiresAt: &at}); err != nil {
+				cleanup()
+				return &vio{"inmem/Put/error", err.Error()}
+			}
+			mutated(k)
+			expAt[k] = at
+		case "tick":
+			// the clock passes every pending expiry; the store is NOT touched (a Get would purge the record and
+			// notify on the waiters' behalf): whoever is parked on an expired key must come back by itself
+			time.Sleep(time.Hour)
+			for key, at := range expAt {
+				if at.Before(time.Now()) {
+					if v, ok := cur[key]; ok {
+						stale[key] = v
+					}
+					delete(cur, key)
+					delete(expAt, key)
+					for _, w := range ws {
+						if w.key == key && w.expect == "parked" {
+							w.expect = "ErrNotExist"
+						}
+					}
+				}
+			}
 		case "put":
+			delete(expAt, k)
 			if _, err := s.Put(bg, kvs.Record{Key: k, Value: []byte("p")}); err != nil {
 				cleanup()
 				return &vio{"inmem/Put/error", err.Error()}
 			}
 			mutated(k)
 		case "putmany1":
+			delete(expAt, k)
 			if err := s.PutMany(bg, []kvs.Record{{Key: k, Value: []byte("m"), Version: cur[k]}}); err != nil {
 				cleanup()
 				return &vio{"inmem/PutMany/error", err.Error()}
 			}
 			mutated(k)
 		case "putmany2":
+			delete(expAt, "k1")
+			delete(expAt, "k2")
 			if err := s.PutMany(bg, []kvs.Record{{Key: "k1", Value: []byte("m"), Version: cur["k1"]}, {Key: "k2", Value: []byte("m")}}); err != nil {
 				cleanup()
 				return &vio{"inmem/PutMany/error", err.Error()}
@@ -298,6 +335,7 @@ func runScript(sc script, visit func(string)) *vio {
 					cleanup()
 					return &vio{"inmem/Cas/error", fmt.Sprintf("CAS with the current version failed: %v", err)}
 				}
+				delete(expAt, k)
 				mutated(k)
 			}
 		case "casconf":
@@ -308,6 +346,7 @@ func runScript(sc script, visit func(string)) *vio {
 			}
 		case "delete":
 			_ = s.Delete(bg, k)
+			delete(expAt, k)
 			mutated(k)
 		case "create":
 			if _, err := s.Create(bg, kvs.Record{Key: k, Value: []byte("n")}); err == nil {
@@ -741,8 +780,8 @@ func TestCheck(t *testing.T) {
 		}
 		run.Finish(t)
 	})
-	run.Rule("scripted: every legal script to the depth bound over {start waiter (key1 cur/stale/unknown, key2 cur; <=3 alive), cancel waiter i, cancel+Put+newcomer without quiescence in between, start+Put without quiescence, Put k1/k2, PutMany k1 / k1+k2, CAS ok, CAS conflict, Delete k1/k2, Create} from 2 initial states, in a synctest bubble; after EVERY event quiescence, then each waiter must be exactly parked / nil / ErrNotExist / ctx error per model and the waiter table must equal the parked set; free-running: 3 writers + 6 waiters + cancellers on 2 keys per round, waiter returns checked by porcupine as read-like operations, final mutation must release all; burst rounds: 4-16 waiters on the current version start together with one mutation and must all return. distinct = distinct (event kind, parked-waiter multiset, number of present keys) classes observed at quiescent points + distinct free-running rounds")
-	run.Assume("scripted part: frozen virtual time, records without expiry")
+	run.Rule("scripted: every legal script to the depth bound over {start waiter (key1 cur/stale/unknown, key2 cur; <=3 alive), cancel waiter i, cancel+Put+newcomer without quiescence in between, start+Put without quiescence, Put k1/k2, PutMany k1 / k1+k2, CAS ok, CAS conflict, Delete k1/k2, Create, Put with an expiry, clock +1 h (nobody touches the store)} from 2 initial states, in a synctest bubble; after EVERY event quiescence, then each waiter must be exactly parked / nil / ErrNotExist / ctx error per model and the waiter table must equal the parked set; free-running: 3 writers + 6 waiters + cancellers on 2 keys per round, waiter returns checked by porcupine as read-like operations, final mutation must release all; burst rounds: 4-16 waiters on the current version start together with one mutation and must all return. distinct = distinct (event kind, parked-waiter multiset, number of present keys) classes observed at quiescent points + distinct free-running rounds")
+	run.Assume("scripted part: virtual time that only moves at the explicit clock event")
 	run.Assume("free-running 'never misses' uses a 20 s watchdog against a healthy release time of microseconds (inmem) / <=100 ms (Redis polling)")
 
 	if p := os.Getenv("VERIF_REPLAY"); p != "" {
